@@ -1852,6 +1852,10 @@ def _evalb(e, b, env, u, src_ok):
     val = None
     if k in ('idx', 'un') and access(e) is not None and src_ok(access(e)[0]):
         val = b
+        # the byte as the type it is read through sees it: a plain (signed) char turns 0x80..0xFF into negative values
+        t_own = u.ty(e.get('ty0', e.get('ty'))) if ('ty0' in e or 'ty' in e) else {}
+        if t_own.get('c') == 'int' and t_own.get('bits') == 8 and not t_own.get('unsigned') and val >= 128:
+            val -= 256
     elif k == 'ref':
         if e['d'] in env:
             val = _evalb(env[e['d']], b, env, u, src_ok)
@@ -2170,3 +2174,45 @@ def num3(units, R):
                      'end of an exact-length buffer loses them' % (name, c, op, name, short), key='bound:%s' % name)
     R.ob('NUM3', None, None, 'hoisted scan bounds of parse_number examined', True, '%d taken from the remaining input' % n,
          key='census', file='cJSON.c', line=0)
+
+
+
+def tab22(units, R, fn_name='buffer_skip_whitespace'):
+    """buffer_skip_whitespace steps over a byte only when its value is at most 0x20: the set of values of the byte under the
+    cursor with which an advance of the read position is reached (within one iteration of the skipping loop, conditions
+    evaluated for all 256 values as the type they are read through sees them) contains nothing above 32.  What follows the
+    top-level value "only whitespace" (C10) and what separates tokens (C02/C03) is decided here."""
+    u = units['cJSON.c']
+    fn = u.fn(fn_name)
+
+    def src_ok(base):
+        b = strip_casts(base)
+        return u.ty(b.get('ty0', b.get('ty')))['c'] == 'ptr' if ('ty' in b or 'ty0' in b) else False
+    skipped = set()
+    nadv = [0]
+
+    def visit(node, B, env):
+        for ev in node_effects(node):
+            adv = False
+            if ev.kind == 'incdec' and ev.delta > 0:
+                l = strip_casts(ev.lhs)
+                adv = is_mem(l, 'offset') or (l.get('k') == 'ref' and u.ty(l.get('ty0', l['ty']))['c'] == 'ptr')
+            elif ev.kind == 'store' and ev.node['op'] == '+=' and (const_val(ev.node['r']) or 0) > 0:
+                l = strip_casts(ev.lhs)
+                adv = is_mem(l, 'offset') or (l.get('k') == 'ref' and u.ty(l.get('ty0', l['ty']))['c'] == 'ptr')
+            if adv and node.line and _in_loop(fn, node):
+                nadv[0] += 1
+                skipped.update(B)
+    _byte_explore(u, fn, src_ok, visit)
+    if not nadv[0]:
+        raise AnalysisBroken('TAB22: no advance of the read position found in a loop of %s' % fn_name)
+    extra = sorted(v for v in skipped if v > 32)
+    R.ob('TAB22', fn, None, '%s steps over bytes up to 0x20 only' % fn_name, not extra,
+         'values skipped: 0..%d' % max(skipped) if not extra else
+         'also steps over the byte values %s%s: a value followed by such a byte passes for "followed by whitespace only"' % (
+             extra[:6], ' ...' if len(extra) > 6 else ''), key='ws-set')
+
+
+def _in_loop(fn, node):
+    cfg = fn.cfg()
+    return node.id in cfg.reachable(node.id)
